@@ -93,7 +93,15 @@ Definition cm_holds (y yh : list float) (eps : float) (o : list (option float)) 
 (* ---- CL ---- *)
 Definition cl_dom (P : list (float * float)) (c : float * float) (eps : float) : bool :=
   Nat.leb 1 (length P) && forallb (fun p => fin (fst p) && fin (snd p)) P
-  && fin (fst c) && fin (snd c) && (0 <? eps)%float && (eps <=? 1)%float.
+  && fin (fst c) && fin (snd c) && (((0 <? eps)%float && (eps <=? 1)%float) || (eps =? 0)%float).
+(* eps = 0 (no guard; outside the domain of the formula theorems, where a zero denominator gives NaN / an exception):
+   only the clause "the wrapper equals the same metric applied to m*x + b, with the SAME eps" is judged, bit for bit,
+   an exception on both sides counting as equal *)
+Definition eps0 (eps : float) : bool := (eps =? 0)%float.
+Definition pred2opt (o : list (option float)) (i j : nat) : bool :=
+  match getf o i, getf o j with Some v, Some w => f_same v w | None, None => true | _, _ => false end.
+Definition cl_holds0 (o : list (option float)) : Z :=
+  firstfail [(3%Z, pred2opt o 4 13 && pred2opt o 5 14); (9%Z, pred2opt o 2 11)].
 Definition opt_pair_cmps (m : float * float) (o : option (float * float)) : list cmp :=
   match o with
   | Some (b, k) => [(fst m, Some b, 0); (snd m, Some k, 0)]
@@ -188,7 +196,7 @@ Definition cl_holds (P : list (float * float)) (c : float * float) (eps : float)
 Definition comparisons (c : case) : list cmp :=
   match c with
   | CM y yh eps o => cm_cmps y yh eps o
-  | CL P cf eps fit yf yc o => cl_cmps P cf eps fit yf yc o
+  | CL P cf eps fit yf yc o => if eps0 eps then [] else cl_cmps P cf eps fit yf yc o
   end.
 Definition in_dom (c : case) : bool :=
   match c with
@@ -198,7 +206,7 @@ Definition in_dom (c : case) : bool :=
 Definition holds (c : case) : Z :=
   match c with
   | CM y yh eps o => cm_holds y yh eps o
-  | CL P cf eps fit yf yc o => cl_holds P cf eps fit yf yc o
+  | CL P cf eps fit yf yc o => if eps0 eps then cl_holds0 o else cl_holds P cf eps fit yf yc o
   end.
 (* conjunct 20 (judged last): "equals its textbook formula to within rounding" — the implementation's value is
    within tolerance of the formula of the *_def theorems evaluated on doubles (the same comparison as `agree`,
